@@ -150,7 +150,10 @@ func (c *apiCase) should(cand, msg []byte) bool {
 
 func (c *apiCase) try(t *rapid.T, kind string, cand, msg []byte) bool {
 	want := c.should(cand, msg)
-	err := c.verifier.Verify(cand, msg)
+	err, pan := noPanic(func() error { return c.verifier.Verify(cand, msg) })
+	if pan != nil {
+		t.Fatalf("%v: candidate kind=%s: Verify PANICS: %v (reference decision %v)\nmsg = %x\nsig = %x", c, kind, pan, want, msg, cand)
+	}
 	if (err == nil) != want {
 		t.Fatalf("%v: candidate kind=%s: Verify err=%v, reference decision (prefix && FIPS 204 Verify with empty ctx) = %v\nmsg = %x\nsig = %x", c, kind, err, want, msg, cand)
 	}
@@ -636,7 +639,10 @@ func TestComposite(t *testing.T) {
 		try := func(kind string, cand, m []byte) bool {
 			n++
 			want, a, b := should(cand, m)
-			err := verifier.Verify(cand, m)
+			err, pan := noPanic(func() error { return verifier.Verify(cand, m) })
+			if pan != nil {
+				rt.Fatalf("%s: candidate kind=%s: Verify PANICS: %v (reference decision %v)\nmsg = %x\nsig = %x", desc, kind, pan, want, m, cand)
+			}
 			if (err == nil) != want {
 				rt.Fatalf("%s: candidate kind=%s: Verify err=%v, reference decision=%v (ML-DSA component %v, classical component %v)\nmsg = %x\nsig = %x", desc, kind, err, want, a, b, m, cand)
 			}
